@@ -84,7 +84,7 @@ def main():
      'version': 1,
      'setup_cmd': 'timeout 3000 tools/nothp make -C coq -j16',
      'hooks': {'guard': 'YLDPROLOG_VERIF',
-               'enable': 'bin/check exports YLDPROLOG_VERIF=1 and PYTHONPATH=/repo/src for the processes that import the implementation; nothing is built',
+               'enable': 'bin/check exports YLDPROLOG_VERIF=1 and PYTHONPATH=/repo/src for the processes that import the implementation; nothing is built. The only hook in the repository is the guarded weak set of created Variables (commit e073151). Independently of it some check modules instrument the engine inside their own process without touching the repository (creation serial numbers on Variables and a wrapper around findall/3: harness/lib/semcheck.py; instance-attribute wrappers with step budgets around assert_fact/match_dynamic: harness/props/dbcommon.py).',
                'baseline_off_cmd': 'cd /repo && env -u YLDPROLOG_VERIF /venv/bin/python -m pytest -ra -q -p no:cacheprovider --timeout=900 --continue-on-collection-errors',
                'source_commits': ['e073151'], 'add_only': True},
      'engines': [{'name': 'coq-model+correspondence', 'path': 'coq/theories + harness/',
